@@ -9,7 +9,7 @@
    no triangle is degenerate, no directed edge is used twice and the reverse of every used directed edge is
    used too — i.e. a closed (boundaryless, 2-manifold-edged), consistently oriented surface. *)
 From PF Require Import Gen.Closed Gen.ClosedProofs Gen.FamilyProofs Gen.Sphere Gen.Hemisphere Gen.Cylinder Gen.Cube
-  Gen.CylinderProofs Gen.SphereProofs Gen.CubeProofs Gen.CylinderGeom Gen.SphereGeom Gen.CylinderVolume Gen.CylinderMono Gen.SphereVolume Gen.HemiVolume Gen.CubeClasses Gen.VolumeLimits Gen.CubeTableProofs Gen.Solids Gen.SphereDistinct Gen.CylinderClasses Gen.GenProofs.
+  Gen.CylinderProofs Gen.SphereProofs Gen.CubeProofs Gen.CylinderGeom Gen.SphereGeom Gen.CylinderVolume Gen.CylinderMono Gen.SphereVolume Gen.HemiVolume Gen.CubeClasses Gen.VolumeLimits Gen.CubeTableProofs Gen.Solids Gen.SphereDistinct Gen.CylinderClasses Gen.HemiDistinct Gen.GenProofs.
 From Coq Require Import Reals.
 Open Scope N_scope.
 
@@ -468,6 +468,12 @@ Theorem sphere_vertices_distinct : forall r c rad v w, (2 <= r)%N -> (1 <= c)%N 
   (v < sphere_nverts r c)%N -> (w < sphere_nverts r c)%N -> sph_posR r c rad v = sph_posR r c rad w -> v = w.
 Proof. exact SphereDistinct.sphere_vertices_distinct. Qed.
 Print Assumptions sphere_vertices_distinct.
+
+(* likewise the hemisphere (base centre, rings from the equator upwards, apex): hemi_cls = identity *)
+Theorem hemi_vertices_distinct : forall r c rad v w, (2 <= r)%N -> (1 <= c)%N -> 0 < rad ->
+  (v < hemi_nverts r c)%N -> (w < hemi_nverts r c)%N -> hemi_posR r c rad v = hemi_posR r c rad w -> v = w.
+Proof. exact HemiDistinct.hemi_vertices_distinct. Qed.
+Print Assumptions hemi_vertices_distinct.
 
 (* unwelded sphere: fresh vertex k copies welded vertex sphereU_cls k; two fresh vertices are at the same point exactly when
    sphereU_cls gives them the same welded vertex *)
